@@ -561,7 +561,9 @@ for _patch, _props in (('refactors/R3/patch.diff', ('C04', 'C05', 'C06', 'C07', 
                        ('refactors/R1/patch.diff', ('C01', 'C03', 'C06', 'C08', 'C10', 'C11', 'C12')),
                        ('refactors/R2/patch.diff', ('C02', 'C09')),
                        ('refactors/R5/patch.diff', ('C12', 'C13', 'C14')),
-                       ('refactors/R7/patch.diff', ('C01', 'C08', 'C09', 'C17', 'C19'))):
+                       ('refactors/R7/patch.diff', ('C01', 'C08', 'C09', 'C17', 'C19')),
+                       ('refactors/R8/patch.diff', ('C18',)),      # harmless twin of seed C18b (perturbation helper without the clamp)
+                       ('refactors/R9/patch.diff', ('C15',))):     # harmless twin of seed C15b (columns by list indexing, not by mask)
     for _p in _props:
         MUTANTS.append({'prop': _p, 'name': 'refactor-' + _patch.split('/')[1], 'kind': 'silent', 'patch': _patch})
 M('C06', 'revert-sentinel-slot', S, "empty_array = -np.ones((self.num_reactions, self.num_species + 1, 2), dtype = np.int32)", "empty_array = -np.ones((self.num_reactions, self.num_species, 2), dtype = np.int32)", 'fire', 'R6.4-safe-sentinel/SafeModelCSimInterface')
@@ -592,3 +594,8 @@ for _d in sorted(_os.listdir(_SEEDED)) if _os.path.isdir(_SEEDED) else []:
     _m = _json.load(open(_mf))
     _exp = _m.get('expect_rule') or (_re.findall(r'R\d+\.\d+-[A-Za-z0-9-]+', _m.get('caught_by', '')) or [''])[0]
     MUTANTS.append({'prop': _m['breaks_property'], 'name': 'seed-' + _d, 'kind': 'fire', 'patch': 'seeded/%s/patch.diff' % _d, 'expect': _exp})
+
+
+MUTANTS.append({'prop': 'C05', 'name': 'zero-test-nonpositive', 'kind': 'silent', 'file': S, 'occurrences': 2,
+                'old': "            if Lambda == 0:\n                proposed_time = c_timepoints[current_index]\n                reaction_fired = 0\n",
+                'new': "            if Lambda <= 0:\n                proposed_time = c_timepoints[current_index]\n                reaction_fired = 0\n"})
